@@ -492,3 +492,612 @@ def _delta(run):
 
 def _wfmt(words):
     return ' | '.join(' * '.join('%s%s' % (n, '^-1' if p < 0 else '') for (n, p) in w) for w in words)
+
+
+# =========================================================================== C12 tables
+def tables_c12(run):
+    Q = ['P0[0]', 'P0[1]', 'P0[2]', 'P0[3]']
+    s, x, y, z = Q
+    check_matrix_fn(run, 'base/quaternions:matrix', 'matrix(q)',
+                    [[s, '-' + x, '-' + y, '-' + z], [x, s, '-' + z, y], [y, z, s, '-' + x], [z, '-' + y, x, s]])
+    check_vector_fn(run, 'base/quaternions:conj', 'conj', ['P0[0]', '-P0[1:4]'])
+    check_vector_fn(run, 'base/quaternions:qqmul', 'qqmul',
+                    ['P0[0]*P1[0] - dot(P0[1:4], P1[1:4])', 'P0[0]*P1[1:4] + P1[0]*P0[1:4] + cross(P0[1:4], P1[1:4])'])
+    check_expr_fn(run, 'base/quaternions:qvmul', 'qvmul sandwich', 'qqmul(P0, qqmul(pure(P1), conj(P0)))[1:4]',
+                  alts=('qqmul(qqmul(P0, pure(P1)), conj(P0))[1:4]',))
+    check_vector_fn(run, 'base/quaternions:pure', 'pure', ['0', 'P0'])
+    check_expr_fn(run, 'base/quaternions:inner', 'inner', 'dot(P0, P1)')
+    check_vector_fn(run, 'base/quaternions:dot', 'dot (world frame rate)',
+                    ['-0.5*dot(P0[1:4], P1)', '0.5*((P0[0]*eye(3, 3) - skew(P0[1:4])) @ P1)'])
+    check_vector_fn(run, 'base/quaternions:dotb', 'dotb (body frame rate)',
+                    ['-0.5*dot(P0[1:4], P1)', '0.5*((P0[0]*eye(3, 3) + skew(P0[1:4])) @ P1)'])
+    check_matrix_fn(run, 'base/quaternions:q2r', 'q2r',
+                    [['1 - 2*(%s**2 + %s**2)' % (y, z), '2*(%s*%s - %s*%s)' % (x, y, s, z), '2*(%s*%s + %s*%s)' % (x, z, s, y)],
+                     ['2*(%s*%s + %s*%s)' % (x, y, s, z), '1 - 2*(%s**2 + %s**2)' % (x, z), '2*(%s*%s - %s*%s)' % (y, z, s, x)],
+                     ['2*(%s*%s - %s*%s)' % (x, z, s, y), '2*(%s*%s + %s*%s)' % (y, z, s, x), '1 - 2*(%s**2 + %s**2)' % (x, y)]])
+    check_vector_fn(run, 'base/quaternions:v2q', 'v2q', ['sqrt(1 - sum(P0**2))', 'P0'])
+    check_expr_fn(run, 'base/quaternions:q2v', 'q2v (non-negative scalar part)', 'P0[1:4]', select=(['q[0] >= 0'], True))
+    check_expr_fn(run, 'base/quaternions:q2v', 'q2v (negative scalar part)', '-P0[1:4]', select=(['q[0] >= 0'], False))
+    check_expr_fn(run, 'base/quaternions:qnorm', 'qnorm', 'norm(P0)')
+    _qpow(run)
+    _dualquat(run)
+
+
+def _qpow(run):
+    """R15: qpow folds |power| Hamilton products from the identity and conjugates for a negative exponent."""
+    cx = Ctx(run, 'base/quaternions:qpow')
+    f = cx.f
+    q, power = cx.pname(0), cx.pname(1)
+    loops = [n for n in own_walk(f.node) if isinstance(n, (ast.For, ast.While))]
+    subj = f.key
+    if len(loops) != 1:
+        run.error('R15: qpow: expected exactly one loop, found %d' % len(loops))
+        return
+    lp = loops[0]
+    acc = None
+    if isinstance(lp, ast.For):
+        it = cx.c(lp.iter)
+        ok_range = matches('range(0, abs(%s))' % power, it) is not None or matches('range(abs(%s))' % power, it) is not None
+        body = [s for s in lp.body if not isinstance(s, ast.Pass)]
+        ok_body = False
+        if len(body) == 1 and isinstance(body[0], ast.Assign) and isinstance(body[0].targets[0], ast.Name):
+            acc = body[0].targets[0].id
+            v = cx.c(body[0].value)
+            if matches('qqmul(%s, %s)' % (acc, q), v) is not None or matches('qqmul(%s, %s)' % (q, acc), v) is not None:
+                ok_body = True
+        if ok_range and ok_body:
+            run.holds('R15', subj, 'fold', 'linear fold: |power| products qr = qqmul(qr, q)', f=f, node=lp)
+        elif not ok_range:
+            run.violation('R15', subj, 'fold range', 'the fold does not run abs(power) times: %s' % src(lp.iter, 40), f=f, node=lp)
+        else:
+            run.violation('R15', subj, 'fold step', 'the fold step is not qr = qqmul(qr, q): %s' % src(body[0] if body else lp, 50), f=f, node=lp)
+    else:
+        # square-and-multiply: while n > 0: if n & 1: qr = qqmul(qr, qs); qs = qqmul(qs, qs); n >>= 1
+        body = lp.body
+        mult = sq = shift = None
+        for st in body:
+            if isinstance(st, ast.If) and matches('_N & 1', cx.c(st.test)) is not None and len(st.body) == 1 \
+                    and isinstance(st.body[0], ast.Assign):
+                mult = st.body[0]
+            elif isinstance(st, ast.Assign) and isinstance(st.value, ast.Call):
+                sq = st
+            elif isinstance(st, ast.AugAssign) and isinstance(st.op, ast.RShift):
+                shift = st
+        if mult is None or sq is None or shift is None:
+            run.error('R15: qpow: loop is neither the linear fold nor square-and-multiply')
+            return
+        acc = mult.targets[0].id
+        base_ = sq.targets[0].id
+        okm = matches('qqmul(%s, %s)' % (acc, base_), canon(cx.fi, mult.value, inline=False)) is not None or \
+            matches('qqmul(%s, %s)' % (base_, acc), canon(cx.fi, mult.value, inline=False)) is not None
+        oks = matches('qqmul(%s, %s)' % (base_, base_), canon(cx.fi, sq.value, inline=False)) is not None
+        if okm and oks:
+            run.holds('R15', subj, 'fold', 'square-and-multiply: qr *= qs on set bits, qs = qs*qs each step', f=f, node=lp)
+        elif not oks:
+            run.violation('R15', subj, 'fold squaring step', 'square-and-multiply: the per-bit factor must be squared '
+                          '(%s = qqmul(%s, %s)) but the code has %s: exponents above 3 give the wrong power'
+                          % (base_, base_, base_, src(sq, 50)), f=f, node=sq)
+        else:
+            run.violation('R15', subj, 'fold multiply step', 'accumulator update is not qqmul(%s, %s)' % (acc, base_), f=f, node=mult)
+    # accumulator starts at the identity, negative exponent conjugates
+    start_ok = False
+    conj_ok = False
+    for n in own_walk(f.node):
+        if isinstance(n, ast.Assign) and isinstance(n.targets[0], ast.Name) and acc and n.targets[0].id == acc and \
+                matches('eye()', cx.c(n.value)) is not None:
+            start_ok = True
+        if isinstance(n, ast.If) and matches('%s < 0' % power, n.test) is not None:
+            for st in n.body:
+                if isinstance(st, ast.Assign) and matches('conj(%s)' % acc, cx.c(st.value)) is not None:
+                    conj_ok = True
+    (run.holds if start_ok else run.violation)('R15', subj, 'fold start', 'accumulator starts at the identity quaternion' if start_ok
+                                               else 'accumulator does not start at eye(): q**0 is not the identity', f=f)
+    (run.holds if conj_ok else run.violation)('R15', subj, 'negative exponent', 'negative power conjugates the result' if conj_ok
+                                              else 'no conjugation under power < 0', f=f)
+
+
+def _dualquat(run):
+    nc = dict(noncomm=True)
+    cx = Ctx(run, 'DualQuaternion:DualQuaternion.__mul__')
+    f = cx.f
+    L, R = cx.pname(0) if f.selfname is None else f.params[0], f.params[1]
+    vals = {}
+    for n in own_walk(f.node):
+        if isinstance(n, ast.Assign) and isinstance(n.targets[0], ast.Name) and n.targets[0].id in ('real', 'dual'):
+            vals[n.targets[0].id] = n.value
+    nm = Normaliser(rename={f.params[0]: 'L', f.params[1]: 'R'}, noncomm=True)
+    want = {'real': 'L.real * R.real', 'dual': 'L.real * R.dual + L.dual * R.real'}
+    for k, w in want.items():
+        if k not in vals:
+            run.error('R16: DualQuaternion.__mul__: no assignment to %s' % k)
+            continue
+        g = nm.poly(canon(cx.fi, vals[k], inline=False))
+        wp = Normaliser(noncomm=True).poly(parse_expr(w))
+        if g == wp:
+            run.holds(RULE, f.key, 'dual product ' + k, '%s = %s (operand order kept)' % (k, w), f=f)
+        else:
+            run.violation(RULE, f.key, 'dual product ' + k, '%s part is %s but the dual-number product requires %s' % (k, g, wp), f=f)
+    # matrix: [[R, 0], [D, R]]
+    cm = Ctx(run, 'DualQuaternion:DualQuaternion.matrix')
+    r = _single_return_value(cm)
+    b = _blocks(cm.c(r.value)) if r is not None else None
+    if b is None:
+        run.error('R16: DualQuaternion.matrix is not an np.block literal')
+    else:
+        nmz = Normaliser(rename={cm.f.selfname: 'S'})
+        got = [[nmz.poly(x) for x in r_] for r_ in b]
+        wantp = [[Normaliser().poly(parse_expr(x)) for x in r_] for r_ in [['S.real.matrix', 'zeros((4, 4))'], ['S.dual.matrix', 'S.real.matrix']]]
+        bad = compare_tables(got, wantp)
+        if bad:
+            for (i, j, g, w) in bad:
+                run.violation(RULE, cm.f.key, 'matrix block (%d,%d)' % (i, j), 'block is %s, [[R, 0], [D, R]] requires %s' % (g, w), f=cm.f, node=r)
+        elif bad is None:
+            run.error('R16: DualQuaternion.matrix block shape')
+        else:
+            run.holds(RULE, cm.f.key, '8x8 matrix', 'blocks agree with [[R, 0], [D, R]]', f=cm.f, node=r)
+    for key, want_, nm_ in (('DualQuaternion:DualQuaternion.conj', 'DualQuaternion(SELF.real.conj(), SELF.dual.conj())', 'conj'),
+                            ('DualQuaternion:DualQuaternion.vec', 'r_[SELF.real.vec, SELF.dual.vec]', 'vec')):
+        check_expr_fn(run, key, nm_, want_)
+    # norm: (sqrt(a.s), sqrt(b.s)) with a = real*conj(real), b = real*conj(dual) + dual*conj(real)
+    cn = Ctx(run, 'DualQuaternion:DualQuaternion.norm')
+    vals = {}
+    for n in own_walk(cn.f.node):
+        if isinstance(n, ast.Assign) and isinstance(n.targets[0], ast.Name):
+            vals[n.targets[0].id] = n.value
+    nmn = Normaliser(rename={cn.f.selfname: 'S'}, noncomm=True)
+    wa = Normaliser(noncomm=True).poly(parse_expr('S.real * S.real.conj()'))
+    wb = Normaliser(noncomm=True).poly(parse_expr('S.real * S.dual.conj() + S.dual * S.real.conj()'))
+    got = [nmn.poly(canon(cn.fi, v, inline=False)) for v in vals.values()]
+    if wa in got and wb in got:
+        run.holds(RULE, cn.f.key, 'norm terms', 'a = q conj(q), b = q conj(d) + d conj(q)', f=cn.f)
+    else:
+        run.violation(RULE, cn.f.key, 'norm terms', 'dual-quaternion norm terms are %s; the definition requires %s and %s'
+                      % ('; '.join(str(g) for g in got), wa, wb), f=cn.f)
+
+
+# --------------------------------------------------------------------------- routing (R15 / R13)
+def check_routes(run, routes, rule='R15'):
+    """routes: list of (function key, description, [accepted canonical patterns for the return / some statement], where)
+    where = 'return' (every value return matches one pattern) or 'any' (some expression in the body matches)."""
+    for key, desc, pats, where in routes:
+        f = run.prog.func(key)
+        fi = FuncInfo.of(f)
+        if where == 'return':
+            rets = [r for r in own_returns(f.node) if r.value is not None]
+            bad = []
+            for r in rets:
+                e = canon(fi, r.value)
+                if not any(matches(p, e) is not None for p in pats):
+                    bad.append(r)
+            if not rets:
+                run.error('%s: %s has no value return' % (rule, key))
+            elif bad:
+                run.violation(rule, key, desc, 'return value %s is not of the required form %s' % (src(bad[0].value, 70), pats[0]),
+                              f=f, node=bad[0])
+            else:
+                run.holds(rule, key, desc, 'every return has the form %s' % pats[0], f=f)
+        else:
+            found = False
+            for n in own_walk(f.node):
+                if isinstance(n, ast.expr):
+                    try:
+                        e = canon(fi, n)
+                    except Exception:
+                        continue
+                    if any(matches(p, e) is not None for p in pats):
+                        found = True
+                        break
+            if found:
+                run.holds(rule, key, desc, 'contains %s' % pats[0], f=f)
+            else:
+                run.violation(rule, key, desc, 'no expression of the required form %s' % pats[0], f=f)
+
+
+ROUTES_C12 = [
+    ('quaternion:Quaternion.__mul__', 'Quaternion * Quaternion -> qqmul through binop', ['Quaternion(left.binop(right, qqmul))'], 'any'),
+    ('quaternion:UnitQuaternion.__mul__', 'UnitQuaternion * UnitQuaternion -> qqmul through binop', ['right.__class__(left.binop(right, qqmul))'], 'any'),
+    ('quaternion:UnitQuaternion.__truediv__', 'q1 / q2 = q1 * conj(q2)', ['UnitQuaternion(left.binop(right, lambda x, y: qqmul(x, conj(y))))'], 'any'),
+    ('quaternion:Quaternion.__pow__', 'power through qpow on every element', ['self.__class__([qpow(q._A, n) for q in self])'], 'return'),
+    ('quaternion:Quaternion.conj', 'conjugate of every element', ['self.__class__([conj(q._A) for q in self])'], 'return'),
+    ('quaternion:Quaternion.inner', 'inner product through binop', ['self.binop(other, inner, list1=False)'], 'return'),
+    ('quaternion:UnitQuaternion.inv', 'inverse of a unit quaternion is its conjugate', ['UnitQuaternion([conj(q._A) for q in self])'], 'return'),
+    ('quaternion:Quaternion.matrix', 'matrix form', ['matrix(self._A)'], 'return'),
+    ('quaternion:UnitQuaternion.dot', 'rate (world)', ['dot(self._A, omega)'], 'return'),
+    ('quaternion:UnitQuaternion.dotb', 'rate (body)', ['dotb(self._A, omega)'], 'return'),
+]
+
+
+# =========================================================================== straight-line symbolic environment
+import copy as _copy
+
+
+class _Subst(ast.NodeTransformer):
+    def __init__(self, env):
+        self.env = env
+
+    def visit_Name(self, n):
+        if isinstance(n.ctx, ast.Load) and n.id in self.env:
+            return _copy.deepcopy(self.env[n.id])
+        return n
+
+
+def sl_eval(cx, stmts=None, env=None, keep_params=True):
+    """Symbolic evaluation of straight-line code: returns list of (Return node, canonical value expression with all
+    locals substituted by their defining expressions in program order).  `if` statements whose bodies only raise are
+    skipped; other branching makes the names assigned inside unknown; `if/else` at the end with returns is followed."""
+    env = dict(env or {})
+    out = []
+    stmts = body_nodoc(cx.f.node) if stmts is None else stmts
+    for st in stmts:
+        if isinstance(st, ast.Assign) and len(st.targets) == 1:
+            v = _Subst(env).visit(canon(cx.fi, st.value, inline=False))
+            t = st.targets[0]
+            if isinstance(t, ast.Name):
+                env[t.id] = v
+            elif isinstance(t, (ast.Tuple, ast.List)) and isinstance(v, (ast.Tuple, ast.List)) and len(t.elts) == len(v.elts):
+                for a, b in zip(t.elts, v.elts):
+                    if isinstance(a, ast.Name):
+                        env[a.id] = b
+            elif isinstance(t, (ast.Tuple, ast.List)):
+                for i, a in enumerate(t.elts):
+                    if isinstance(a, ast.Name):
+                        env[a.id] = ast.Subscript(value=_copy.deepcopy(v), slice=ast.Constant(value=i), ctx=ast.Load())
+            else:
+                # subscript store: x[..] = v  -> x becomes opaque (tables with stores are handled separately)
+                for y in ast.walk(t):
+                    if isinstance(y, ast.Name):
+                        env.pop(y.id, None)
+        elif isinstance(st, ast.Return):
+            if st.value is not None:
+                out.append((st, _Subst(env).visit(canon(cx.fi, st.value, inline=False))))
+            return out
+        elif isinstance(st, ast.If):
+            from ..astutil import ends_in_raise
+            if ends_in_raise(st.body) and not st.orelse:
+                continue
+            # follow both arms independently when they end in return (tail dispatch)
+            a = sl_eval(cx, st.body, env)
+            b = sl_eval(cx, st.orelse, env) if st.orelse else []
+            out += a + b
+            if (a and st.body and isinstance(st.body[-1], ast.Return)) and (not st.orelse or (b and isinstance(st.orelse[-1], ast.Return))):
+                if st.orelse:
+                    return out
+                continue
+            for y in ast.walk(st):
+                if isinstance(y, ast.Name) and isinstance(y.ctx, ast.Store):
+                    env.pop(y.id, None)
+        elif isinstance(st, (ast.Expr, ast.Pass, ast.Assert)):
+            continue
+        else:
+            for y in ast.walk(st):
+                if isinstance(y, ast.Name) and isinstance(y.ctx, ast.Store):
+                    env.pop(y.id, None)
+    return out
+
+
+# =========================================================================== C01 / C05 / C14 tables
+def tables_rot(run):
+    """T01-T04 literal rotation matrices."""
+    c, s = 'cos(P0)', 'sin(P0)'
+    check_matrix_fn(run, 'base/transforms3d:rotx', 'rotx', [['1', '0', '0'], ['0', c, '-' + s], ['0', s, c]])
+    check_matrix_fn(run, 'base/transforms3d:roty', 'roty', [[c, '0', s], ['0', '1', '0'], ['-' + s, '0', c]])
+    check_matrix_fn(run, 'base/transforms3d:rotz', 'rotz', [[c, '-' + s, '0'], [s, c, '0'], ['0', '0', '1']])
+    check_matrix_fn(run, 'base/transforms2d:rot2', 'rot2', [[c, '-' + s], [s, c]])
+    # the angle entering cos/sin has passed getunit(theta, unit)
+    for k in ('base/transforms3d:rotx', 'base/transforms3d:roty', 'base/transforms3d:rotz', 'base/transforms2d:rot2'):
+        f = run.prog.func(k)
+        fi = FuncInfo.of(f)
+        th, un = f.params[0], f.params[1]
+        ok = any(isinstance(n, ast.Assign) and isinstance(n.targets[0], ast.Name) and n.targets[0].id == th and
+                 matches('getunit(%s, %s)' % (th, un), canon(fi, n.value, inline=False)) is not None for n in body_nodoc(f.node))
+        (run.holds if ok else run.violation)(RULE, k, 'angle passes getunit', 'theta = getunit(theta, unit) precedes the table' if ok
+                                             else 'the angle is not converted with getunit(theta, unit) before the table', f=f)
+    # homogeneous wrappers: r2t of the rotation, optional translation column, nothing else
+    for k, rot in (('base/transforms3d:trotx', 'rotx'), ('base/transforms3d:troty', 'roty'), ('base/transforms3d:trotz', 'rotz')):
+        _trot(run, k, rot, 3)
+    _trot2(run)
+
+
+def _trot(run, key, rot, n):
+    cx = Ctx(run, key)
+    f = cx.f
+    th, un, t = f.params[0], f.params[1], f.params[2]
+    defs = {}
+    stores = []
+    for st in own_walk(f.node):
+        if isinstance(st, ast.Assign) and len(st.targets) == 1:
+            tg = st.targets[0]
+            if isinstance(tg, ast.Name):
+                defs[tg.id] = canon(cx.fi, st.value, inline=False)
+            elif isinstance(tg, ast.Subscript) and isinstance(tg.value, ast.Name):
+                stores.append((tg.value.id, cx.norm.slice_str(tg.slice), canon(cx.fi, st.value, inline=False)))
+    r = _single_return_value(cx)
+    name = r.value.id if r is not None and isinstance(r.value, ast.Name) else None
+    ok = name in defs and (matches('r2t(%s(%s, %s))' % (rot, th, un), defs[name]) is not None or
+                           matches('r2t(%s(%s, unit=%s))' % (rot, th, un), defs[name]) is not None)
+    (run.holds if ok else run.violation)(RULE, key, 'r2t of ' + rot, 'T = r2t(%s(theta, unit))' % rot if ok else
+                                         'result is not r2t(%s(theta, unit)): %s' % (rot, src(defs.get(name), 50) if name in defs else '?'), f=f)
+    bad = [(v, k) for (v, k, e) in stores if v == name and k != ':%d, %d' % (n, n)]
+    good = [(v, k, e) for (v, k, e) in stores if v == name and k == ':%d, %d' % (n, n)]
+    if bad:
+        run.violation(RULE, key, 'only the translation column is written', 'writes into T[%s] besides the translation column' % bad[0][1], f=f)
+    elif good and (matches("getvector(%s, %d, 'array')" % (t, n), good[0][2]) is not None or matches('getvector(%s, %d)' % (t, n), good[0][2]) is not None):
+        run.holds(RULE, key, 'translation column', 'T[:%d, %d] = getvector(t, %d)' % (n, n, n), f=f)
+    else:
+        run.violation(RULE, key, 'translation column', 'translation is not stored as T[:%d, %d] = getvector(t, %d)' % (n, n, n), f=f)
+
+
+def _trot2(run):
+    for key, ang, tr_slice, trv in (('base/transforms2d:trot2', None, ':2, 2', "getvector(P2, 2, 'array')"),
+                                    ('base/transforms2d:xyt2tr', None, ':2, 2', 'P0[0:2]')):
+        cx = Ctx(run, key)
+        f = cx.f
+        defs, stores = {}, {}
+        for st in own_walk(f.node):
+            if isinstance(st, ast.Assign) and len(st.targets) == 1:
+                tg = st.targets[0]
+                if isinstance(tg, ast.Name):
+                    defs[tg.id] = cx.norm.poly(canon(cx.fi, st.value, inline=False))
+                elif isinstance(tg, ast.Subscript) and isinstance(tg.value, ast.Name):
+                    stores[cx.norm.slice_str(tg.slice)] = cx.norm.poly(canon(cx.fi, st.value, inline=False))
+        if key.endswith('trot2'):
+            wantT = Normaliser().poly(parse_expr("pad(rot2(P0, P1), (0, 1), mode='constant')"))
+        else:
+            wantT = Normaliser().poly(parse_expr("pad(rot2(P0[2], P1), (0, 1), mode='constant')"))
+        okT = defs.get('T') == wantT
+        ok1 = stores.get('2, 2') == Poly.const(1)
+        okt = stores.get(tr_slice) == Normaliser().poly(parse_expr(trv))
+        (run.holds if okT else run.violation)(RULE, key, 'padded rotation', 'T = pad(rot2(theta, unit))' if okT else 'T is %s' % defs.get('T'), f=f)
+        (run.holds if ok1 else run.violation)(RULE, key, 'corner element', 'T[2,2] = 1' if ok1 else 'T[2,2] is not set to 1 (last row [0 0 1] lost)', f=f)
+        (run.holds if okt else run.violation)(RULE, key, 'translation column', 'T[:2,2] = translation' if okt else 'translation column is %s' % stores.get(tr_slice), f=f)
+
+
+RPY_WORDS = {
+    frozenset(['zyx', 'vehicle']): [('z', 2), ('y', 1), ('x', 0)],
+    frozenset(['xyz', 'arm']): [('x', 2), ('y', 1), ('z', 0)],
+    frozenset(['yxz', 'camera']): [('y', 2), ('x', 1), ('z', 0)],
+}
+
+
+def _rot_word(cx, e, angles):
+    """rotx(angles[2]) @ roty(angles[1]) @ ... -> [(axis, index)] or None"""
+    if isinstance(e, ast.BinOp) and isinstance(e.op, ast.MatMult):
+        a = _rot_word(cx, e.left, angles)
+        b = _rot_word(cx, e.right, angles)
+        return None if a is None or b is None else a + b
+    for ax in 'xyz':
+        b = matches('rot%s(%s[_I])' % (ax, angles), e)
+        if b is not None and isinstance(b['_I'], ast.Constant):
+            return [(ax, b['_I'].value)]
+    return None
+
+
+def rotation_words(run, rule='R12'):
+    from ..astutil import if_chain
+    cx = Ctx(run, 'base/transforms3d:rpy2r')
+    f = cx.f
+    chain = None
+    for st in body_nodoc(f.node):
+        if isinstance(st, ast.If):
+            arms, els = if_chain(st)
+            if any('order' in ast.unparse(t) for (t, _) in arms):
+                chain = (arms, els)
+    if chain is None:
+        run.error('R12: rpy2r: no if-chain over order')
+        return
+    seen = set()
+    for (t, body) in chain[0]:
+        names = frozenset(c.value for n in ast.walk(t) if isinstance(n, ast.Compare) for c in n.comparators if isinstance(c, ast.Constant))
+        want = RPY_WORDS.get(names)
+        if want is None:
+            run.violation(rule, f.key, 'order names %s' % sorted(names), 'unexpected set of order names in one branch (documented: '
+                          'zyx|vehicle, xyz|arm, yxz|camera)', f=f, node=t)
+            continue
+        seen.add(names)
+        w = None
+        for st in body:
+            if isinstance(st, ast.Assign):
+                w = _rot_word(cx, canon(cx.fi, st.value, inline=False), 'angles')
+        label = '/'.join(sorted(names))
+        if w is None:
+            run.error('R12: rpy2r branch %s: not a product of rotx/roty/rotz(angles[i])' % label)
+        elif w == want:
+            run.holds(rule, f.key, 'order ' + label, 'R = %s' % ' '.join('R%s(a%d)' % (a, i) for a, i in w), f=f, node=t)
+        else:
+            run.violation(rule, f.key, 'order ' + label, 'branch %s builds %s but the documented order is %s (a = [roll, pitch, yaw])'
+                          % (label, ' '.join('R%s(a%d)' % (a, i) for a, i in w), ' '.join('R%s(a%d)' % (a, i) for a, i in want)), f=f, node=t)
+    for names in RPY_WORDS:
+        if names not in seen:
+            run.violation(rule, f.key, 'order ' + '/'.join(sorted(names)), 'no branch for this documented order', f=f)
+    # angles = [roll, pitch, yaw] | getvector(roll, 3), then getunit
+    okv = False
+    for st in own_walk(f.node):
+        if isinstance(st, ast.Assign) and matches('[%s, %s, %s]' % tuple(f.params[:3]), st.value) is not None:
+            okv = True
+    (run.holds if okv else run.violation)(rule, f.key, 'angle slots', 'angles = [roll, pitch, yaw]' if okv else
+                                          'scalar call form does not pack [roll, pitch, yaw] in this order', f=f)
+    ce = Ctx(run, 'base/transforms3d:eul2r')
+    r = _single_return_value(ce)
+    w = _rot_word(ce, canon(ce.fi, r.value, inline=False), 'angles') if r is not None else None
+    want = [('z', 0), ('y', 1), ('z', 2)]
+    if w is None:
+        run.error('R12: eul2r: return is not a product of rotations of angles[i]')
+    elif w == want:
+        run.holds(rule, ce.f.key, 'ZYZ', 'R = Rz(a0) Ry(a1) Rz(a2)', f=ce.f)
+    else:
+        run.violation(rule, ce.f.key, 'ZYZ', 'eul2r builds %s, documented is Rz(phi) Ry(theta) Rz(psi)' %
+                      ' '.join('R%s(a%d)' % (a, i) for a, i in w), f=ce.f)
+    okv = any(isinstance(st, ast.Assign) and matches('[%s, %s, %s]' % tuple(ce.f.params[:3]), st.value) is not None for st in own_walk(ce.f.node))
+    (run.holds if okv else run.violation)(rule, ce.f.key, 'angle slots', 'angles = [phi, theta, psi]' if okv else 'scalar call form does not pack [phi, theta, psi]', f=ce.f)
+    check_routes(run, [
+        ('base/transforms3d:rpy2tr', 'rpy2tr = r2t(rpy2r(...)) with order and unit threaded', ['r2t(rpy2r(roll, pitch, yaw, order=order, unit=unit))', 'r2t(rpy2r(roll, pitch, yaw, unit=unit, order=order))'], 'return'),
+        ('base/transforms3d:eul2tr', 'eul2tr = r2t(eul2r(...)) with unit threaded', ['r2t(eul2r(phi, theta, psi, unit=unit))'], 'return'),
+        ('base/transforms3d:angvec2tr', 'angvec2tr = r2t(angvec2r(...))', ['r2t(angvec2r(theta, v, unit=unit))'], 'return'),
+        ('base/transforms3d:oa2tr', 'oa2tr = r2t(oa2r(o, a))', ['r2t(oa2r(o, a))'], 'return'),
+    ], rule='R12')
+
+
+def tables_frames(run):
+    """T19 Rodrigues / exponential, T20 two-vector frame and trnorm (every column normalised after the cross products)."""
+    cx = Ctx(run, 'base/transformsNd:rodrigues')
+    rets = sl_eval(cx)
+    main = [r for r in rets if matches('eye(__)', r[1]) is None]
+    nm = Normaliser(rename=cx.rename)
+    nm.scalars = {'P1', cx.pname(1)}
+    if len(main) != 1:
+        run.error('R16: rodrigues: expected one non-trivial return, found %d' % len(main))
+    else:
+        try:
+            g = nm.poly(main[0][1])
+            K = 'skew(P0)'
+            wn = Normaliser()
+            wn.scalars = {'P1'}
+            w = wn.poly(parse_expr('eye(%s.shape[0]) + sin(P1) * %s + (1.0 - cos(P1)) * %s @ %s' % (K, K, K, K)))
+            if g == w:
+                run.holds(RULE, cx.f.key, 'Rodrigues formula', 'I + sin(theta) K + (1 - cos(theta)) K K with K = skew(w)', f=cx.f, node=main[0][0])
+            else:
+                run.violation(RULE, cx.f.key, 'Rodrigues formula', 'rodrigues returns %s; the definition is %s' % (g, w), f=cx.f, node=main[0][0])
+        except Unrecognised as ex:
+            run.error('R16: rodrigues unrecognised: %s' % ex)
+    # angvec2r: axis through unitvec, same formula
+    ca = Ctx(run, 'base/transforms3d:angvec2r')
+    rets = [r for r in sl_eval(ca) if matches('eye(__)', r[1]) is None]
+    if len(rets) != 1:
+        run.error('R16: angvec2r: expected one non-trivial return')
+    else:
+        nm = Normaliser(rename=ca.rename)
+        nm.scalars = {ca.pname(0), 'P0'}
+        g = nm.poly(rets[0][1])
+        wn = Normaliser()
+        wn.scalars = {'P0'}
+        K = 'skew(unitvec(P1))'
+        th = 'getunit(P0, P2)'
+        w = wn.poly(parse_expr('eye(3) + sin(%s) * %s + (1.0 - cos(%s)) * %s @ %s' % (th, K, th, K, K)))
+        if g == w:
+            run.holds(RULE, ca.f.key, 'axis-angle formula', 'Rodrigues form about unitvec(v) with the converted angle', f=ca.f, node=rets[0][0])
+        else:
+            run.violation(RULE, ca.f.key, 'axis-angle formula', 'angvec2r returns %s; the definition is %s (normalised axis, converted angle)' % (g, w), f=ca.f, node=rets[0][0])
+    _frame(run, 'base/transforms3d:oa2r', o='P0', a='P1', ret_plain=True)
+    _frame(run, 'base/transforms3d:trnorm', o='P0[:3, 1]', a='P0[:3, 2]', ret_plain=False)
+    _trexp(run)
+
+
+def _frame(run, key, o, a, ret_plain):
+    cx = Ctx(run, key)
+    rets = sl_eval(cx)
+    want_R = "stack((unitvec(cross({o}, {a})), unitvec(cross({a}, cross({o}, {a}))), unitvec({a})), axis=1)".format(o=o, a=a)
+    nm = Normaliser(rename=cx.rename)
+    # getvector(x, 3, out='array') is the identity on the abstract vector
+    class Strip(ast.NodeTransformer):
+        def visit_Call(self, n):
+            self.generic_visit(n)
+            if isinstance(n.func, ast.Name) and n.func.id == 'getvector' and n.args:
+                return n.args[0]
+            return n
+    wR = Normaliser().poly(parse_expr(want_R))
+    found = False
+    for (r, e) in rets:
+        e = Strip().visit(_copy.deepcopy(e))
+        g = nm.poly(e)
+        if ret_plain:
+            found = True
+            if g == wR:
+                run.holds(RULE, key, 'frame columns', 'columns [unit(o x a), unit(a x (o x a)), unit(a)] stacked as columns', f=cx.f, node=r)
+            else:
+                _frame_diagnose(run, cx, key, e, want_R, r)
+        else:
+            b = matches('rt2tr(_R, _T)', e)
+            if b is not None:
+                found = True
+                gR = nm.poly(b['_R'])
+                gT = nm.poly(b['_T'])
+                if gR == wR:
+                    run.holds(RULE, key, 'frame columns', 'columns normalised after the cross products', f=cx.f, node=r)
+                else:
+                    _frame_diagnose(run, cx, key, b['_R'], want_R, r)
+                wT = Normaliser().poly(parse_expr('P0[:3, 3]'))
+                (run.holds if gT == wT else run.violation)(RULE, key, 'translation kept', 'translation T[:3,3] is carried over' if gT == wT
+                                                           else 'translation part is %s, not T[:3,3]' % gT, f=cx.f, node=r)
+            else:
+                if nm.poly(e) == wR:
+                    run.holds(RULE, key, 'frame columns (SO3 result)', 'same frame for a rotation-matrix argument', f=cx.f, node=r)
+                else:
+                    _frame_diagnose(run, cx, key, e, want_R, r)
+                found = True
+    if not found:
+        run.error('R16: %s: no recognisable return' % key)
+
+
+def _frame_diagnose(run, cx, key, e, want_R, r):
+    nm = Normaliser(rename=cx.rename)
+    b = matches('stack((_C0, _C1, _C2), axis=_AX)', e)
+    if b is None:
+        run.error('R16: %s: result is not stack((c0, c1, c2), axis=1): %s' % (key, src(e, 70)))
+        return
+    wb = matches('stack((_C0, _C1, _C2), axis=_AX)', parse_expr(want_R))
+    if not (isinstance(b['_AX'], ast.Constant) and b['_AX'].value == 1):
+        run.violation(RULE, key, 'stack axis', 'the three vectors are stacked along axis %s: they must be the COLUMNS (axis=1)' % src(b['_AX']), f=cx.f, node=r)
+    for i in range(3):
+        g = nm.poly(b['_C%d' % i])
+        w = Normaliser().poly(wb['_C%d' % i])
+        if g != w:
+            run.violation(RULE, key, 'frame column %d' % i, 'column %d is %s but the definition requires %s (each column normalised '
+                          'after the cross products: o x a of two non-orthogonal unit vectors is not a unit vector)' % (i, g, w), f=cx.f, node=r)
+
+
+def _enclosing_block(fnode, target):
+    """innermost statement list that contains `target`"""
+    best = None
+
+    def visit(stmts):
+        nonlocal best
+        for st in stmts:
+            if st is target:
+                best = stmts
+                return True
+            for fld in ('body', 'orelse', 'finalbody'):
+                sub = getattr(st, fld, None)
+                if isinstance(sub, list) and sub and isinstance(sub[0], ast.stmt):
+                    if visit(sub):
+                        if best is None:
+                            best = sub
+                        return True
+        return False
+    visit(fnode.body)
+    return best
+
+
+def _trexp(run):
+    for key, n, rod_w in (('base/transforms3d:trexp', 3, 'tw[3:6]'), ('base/transforms2d:trexp2', 2, 'tw[2]')):
+        cx = Ctx(run, key)
+        f = cx.f
+        fi = cx.fi
+        target = None
+        for r in own_returns(f.node):
+            if r.value is not None and matches('rt2tr(_R, _V @ _T)', canon(fi, r.value, inline=False)) is not None:
+                target = r
+        if target is None:
+            run.error('R16: %s: no `rt2tr(R, V @ t)` return' % key)
+            continue
+        blk = _enclosing_block(f.node, target)
+        rets = [e for (r, e) in sl_eval(cx, blk) if r is target]
+        if len(rets) != 1:
+            run.error('R16: %s: cannot evaluate the se(%d) branch symbolically' % (key, n))
+            continue
+        b = matches('rt2tr(_R, _V @ _T)', rets[0])
+        nm = Normaliser()
+        nm.scalars = {'theta'}
+        try:
+            gR, gV, gT = nm.poly(b['_R']), nm.poly(b['_V']), nm.poly(b['_T'])
+        except Unrecognised as ex:
+            run.error('R16: %s unrecognised: %s' % (key, ex))
+            continue
+        K = 'skew(%s)' % rod_w
+        wR = nm.poly(parse_expr('rodrigues(%s, theta)' % rod_w))
+        wV = nm.poly(parse_expr('eye(%d) * theta + (1.0 - cos(theta)) * %s + (theta - sin(theta)) * %s @ %s' % (n, K, K, K)))
+        wT = nm.poly(parse_expr('tw[0:%d]' % n))
+        for nm_, g, w in (('rotation part', gR, wR), ('translation integral V', gV, wV), ('translational slot', gT, wT)):
+            if g == w:
+                run.holds(RULE, f.key, 'exp ' + nm_, 'agrees with the closed form', f=f, node=target)
+            else:
+                run.violation(RULE, f.key, 'exp ' + nm_, '%s is %s; the closed form is %s' % (nm_, g, w), f=f, node=target)
